@@ -350,7 +350,10 @@ func checkC20(p *core.Program, r *core.Report) {
 			if hu, ok := ix.decls[hobj]; ok {
 				if w := respWriterParam(hu); w != nil {
 					r.AnalysedFn(hu.Name)
-					checkStatusOnce(p, r, ix, hu, w, "O20.4")
+					_, _ = ix, w
+					if hfn := p.SSA.FuncValue(hobj); hfn != nil {
+						checkResponsePaths(p, r, hfn, provingSystemType(p), modeConstants(p), "O20.4", "")
+					}
 				}
 			}
 		}
